@@ -2,6 +2,7 @@
 
 import contextlib
 import copy
+import re
 
 from hypothesis import strategies as st
 
@@ -235,20 +236,20 @@ def U(kind, **kw):
 def contexts(draw):
     profile = draw(st.sampled_from(["HQ", "LD"]))
     pcm = draw(st.sampled_from(["frames", "frames", "fields"]))
-    level = draw(st.sampled_from([0, 0, 0, 1, 2, 3, 7, 64, 65, 66]))
+    level = draw(st.sampled_from([0, 0, 0, 0, 0, 0, 1, 2, 3, 7, 64, 65, 66]))
     return dict(profile=profile, pcm=pcm, level=level)
 
 
 @st.composite
-def valid_sequence(draw, ctx):
+def valid_sequence(draw, ctx, force_frag=False):
     """A sequence built to be conformant for the context (version minimal; SHMARK = repeat of the first header)."""
     profile, pcm, level = ctx["profile"], ctx["pcm"], ctx["level"]
     start = draw(st.sampled_from([0, 0, 2, 1000, (1 << 32) - 2, (1 << 32) - 4, draw(st.integers(0, (1 << 31) - 1)) * 2]))
-    npic = draw(st.integers(0, 4))
+    npic = draw(st.integers(1 if force_frag else 0, 4))
     if pcm == "fields" and npic % 2:
         npic += 1
     strict = level in (64, 65, 66)
-    use_frag = (not strict) and draw(st.booleans())
+    use_frag = (not strict) and (force_frag or draw(st.booleans()))
     # pictures mixed with fragments: legal at level 0 only (levels 1-7 forbid it: the model rejects those)
     mixed = (not strict) and draw(st.integers(0, 3)) == 0
     body = []
@@ -330,12 +331,13 @@ def random_unit(draw, ctx):
 
 
 @st.composite
-def defect(draw, units, ctx):
+def defect(draw, units, ctx, kinds=None):
     """Inject one defect (mutates and returns units, name)."""
-    kind = draw(st.sampled_from(["swap", "delete", "dup", "insert", "next", "prev", "picnum", "version", "level", "variant",
+    kind = draw(st.sampled_from(kinds or ["swap", "delete", "dup", "insert", "next", "prev", "picnum", "version", "level", "variant",
                                  "alien", "fragshape", "drop_eos", "next_zero_nonpic", "interleave_pic", "restart_frag",
                                  "interleave_pic", "restart_frag", "drop_last_picture", "frag_xy", "frag_xy", "version_plus_one",
-                                 "version_plus_one", "drop_first_fragment", "drop_first_fragment", "truncate_fragments"]))
+                                 "version_plus_one", "drop_first_fragment", "drop_first_fragment", "truncate_fragments", "picnum", "picnum",
+                                          "drop_last_picture", "eos_next"]))
     n = len(units)
     i = draw(st.integers(0, n - 1))
     j = draw(st.integers(0, n - 1))
@@ -442,6 +444,13 @@ def defect(draw, units, ctx):
             del units[k]
             while k < len(units) and units[k]["kind"] == "FN":
                 del units[k]
+    elif kind == "eos_next":
+        # end of sequence with a non-zero next_parse_offset (13 = "correct" distance to whatever follows, or junk)
+        for x in units:
+            if x["kind"] == "EOS":
+                x["next"] = draw(st.sampled_from(["wrong", "invalid"]))
+                x["next_delta"] = draw(st.sampled_from([1, 13, 100]))
+                x["next_value"] = draw(st.integers(1, 12))
     elif kind == "drop_eos":
         if units and units[-1]["kind"] == "EOS":
             units.pop()
@@ -464,22 +473,30 @@ def renumber(units, start=0):
     return units
 
 
+FRAG_DEFECTS = ["frag_xy", "frag_xy", "fragshape", "fragshape", "interleave_pic", "restart_frag", "drop_first_fragment",
+                "truncate_fragments", "truncate_fragments", "delete", "swap", "dup", "picnum", "insert", "alien"]
+
+
 @st.composite
 def histories(draw):
-    mode = draw(st.sampled_from(["skeleton"] * 7 + ["random"] * 3))
+    mode = draw(st.sampled_from(["skeleton"] * 5 + ["fragfocus"] * 3 + ["random"] * 2))
     nseq = draw(st.sampled_from([1, 1, 1, 2, 2, 3]))
     units = []
     defects = []
     for _ in range(nseq):
         ctx = draw(contexts())
-        if mode == "skeleton":
-            seq = resolve_markers(draw(valid_sequence(ctx)))
-            nd = draw(st.sampled_from([0, 0, 0, 1, 1, 2]))
+        if mode == "fragfocus":
+            # fragmented pictures under a level without an ordering pattern, one (sometimes two) defects from the
+            # fragment rules: the cheap rules (header first, level pattern) would otherwise decide most verdicts
+            ctx["level"] = 0
+        if mode in ("skeleton", "fragfocus"):
+            seq = resolve_markers(draw(valid_sequence(ctx, force_frag=mode == "fragfocus")))
+            nd = draw(st.sampled_from([0, 0, 0, 1, 1, 2] if mode == "skeleton" else [0, 1, 1, 1, 1, 2]))
             structural = False
             for _ in range(nd):
                 if not seq:
                     break
-                seq, name = draw(defect(seq, ctx))
+                seq, name = draw(defect(seq, ctx, FRAG_DEFECTS if mode == "fragfocus" else None))
                 defects.append(name)
                 structural = structural or name in ("swap", "delete", "dup", "insert", "interleave_pic", "restart_frag", "drop_first_fragment")
             seq = resolve_markers(seq)
@@ -494,8 +511,8 @@ def histories(draw):
             seq = [draw(random_unit(ctx)) for _ in range(draw(st.integers(1, 8)))]
             if draw(st.integers(0, 3)) != 0:
                 seq = renumber(seq, draw(st.sampled_from([0, 2, 4, (1 << 32) - 2, 1, (1 << 32) - 1])))
-            if draw(st.booleans()) and seq[0]["kind"] != "SH":
-                seq.insert(0, U("SH", profile=ctx["profile"], pcm=ctx["pcm"], version=draw(st.sampled_from([1, 2, 3])),
+            if draw(st.integers(0, 5)) != 0 and seq[0]["kind"] != "SH":
+                seq.insert(0, U("SH", profile=ctx["profile"], pcm=ctx["pcm"], version=draw(st.sampled_from([1, 2, 3, 3, 3])),
                                 level=ctx["level"], variant=0))
             if draw(st.booleans()):
                 seq.append(U("EOS"))
@@ -514,9 +531,13 @@ def histories(draw):
 # property
 
 
+LAST = [None, None]  # model's reason and validator's error class of the last history judged (for the coverage labels)
+
+
 def judge_history(units, col, mode="replay", defects=()):
     rec = {"units": units}
     ok, why = MODEL.judge(units)
+    LAST[0], LAST[1] = why, None
     try:
         data = assemble(units)
     except KeyError as e:
@@ -528,6 +549,7 @@ def judge_history(units, col, mode="replay", defects=()):
             type(e).__name__, str(e)[:200], "accept" if ok else "reject", why))
         return ok, None
     accepted = v.error is None
+    LAST[1] = type(v.error).__name__ if v.error is not None else None
     if accepted != ok:
         if ok:
             col.fail("model-accepts/validator-rejects:%s" % type(v.error).__name__, rec,
@@ -545,15 +567,18 @@ def body(case, col):
     kinds = [u["kind"] for u in units]
     has_frag = "F0" in kinds
     rep_sh = kinds.count("SH") > kinds.count("EOS") and kinds.count("SH") >= 2
-    nt = (ok and len(units) >= 5 and (has_frag or rep_sh)) or ((not ok) and mode == "skeleton" and len(defects) == 1)
-    labels = ["mode:" + mode, "model_accept" if ok else "model_reject", "defects:%d" % len(defects) if mode == "skeleton" else "defects:random"]
+    nt = (ok and len(units) >= 5 and (has_frag or rep_sh)) or ((not ok) and mode in ("skeleton", "fragfocus") and len(defects) == 1)
+    labels = ["mode:" + mode, "model_accept" if ok else "model_reject", "defects:%d" % len(defects) if mode in ("skeleton", "fragfocus") else "defects:random"]
     labels += ["defect:" + d for d in set(defects) if d != "random"]
     if has_frag:
         labels.append("has_fragments")
     lv = set(u["level"] for u in units if u["kind"] == "SH")
     labels += ["level:%d" % l for l in lv]
-    if accepted is True and v_err_none(ok):
-        pass
+    if not ok and LAST[0]:
+        # which rule the model's verdict hinged on (first violated rule), and which error class the validator chose
+        labels.append("rule:" + re.sub(r"\d+", "N", LAST[0].split(": ", 1)[-1])[:60])
+    if LAST[1]:
+        labels.append("err:" + LAST[1])
     col.case(key=repr(units), nontrivial=nt, labels=labels,
              sample=lambda: {"history": [compact(u) for u in units], "model": "accept" if ok else "reject", "defects": list(defects)})
 
